@@ -85,6 +85,8 @@ type Cell struct {
 	sub []*Cell
 	agg uint8 // 0 leaf, 1 struct, 2 array
 	typ types.Type
+	big map[int]*Cell // sparse element cells for very large arrays (len in bigN)
+	bigN int
 	// happens-before race metadata (only maintained when race checking is on)
 	wG, wC  int
 	wSite   string
@@ -315,12 +317,28 @@ func (in *Interp) newArray(et types.Type, n int) *Cell {
 	in.allocs++
 	c := &Cell{id: in.allocs, agg: 2, typ: et}
 	// element cells are created on first touch (slices made with a large capacity)
+	if n > 1<<16 {
+		c.big = map[int]*Cell{}
+		c.bigN = n
+		return c
+	}
 	c.sub = make([]*Cell, n)
 	return c
 }
 
 // elem returns the i-th element cell of an array cell, creating it lazily.
 func (in *Interp) elem(arr *Cell, i int) *Cell {
+	if arr.big != nil {
+		c := arr.big[i]
+		if c == nil {
+			if i < 0 || i >= arr.bigN {
+				panic("sparse array index out of range")
+			}
+			c = in.newCell(arr.typ)
+			arr.big[i] = c
+		}
+		return c
+	}
 	c := arr.sub[i]
 	if c == nil {
 		c = in.newCell(arr.typ)
